@@ -34,7 +34,7 @@ def run(m):
             obl = json.loads(o.stdout)
         except Exception:
             return (m, 'engine-error', o.stderr.decode()[:300])
-        bad = sorted({x['rule'] for x in obl if x['status'] != 'discharged'})
+        bad = sorted({x['rule'] for x in obl if x['status'] != 'discharged' and x['key'] != 'floor'})
         if bad:
             return (m, 'reported', bad)
         killed = None
